@@ -72,12 +72,21 @@ def truncIndex (bytesLimit : Nat) : List Entry → Nat
     else if entryLen e > bytesLimit then 0
     else truncIndex (bytesLimit - entryLen e) es + 1
 
-/-- `truncateMetadata`: (mdPb.Entry afterwards, truncated). -/
+/-- Entries that count towards the header limit: everything but grpc-trace-bin
+    (`entry.Key == "grpc-trace-bin"` in the Go code is `!(counted e)`). -/
+def counted (e : Entry) : Bool := e.key != traceBin
+
+/-- `truncateMetadata` (as of /repo commit 6e01388): (mdPb.Entry afterwards, truncated).
+    After the loop the entries in front of `index` are kept, and so are the grpc-trace-bin entries
+    behind it (`kept = append(kept, entry)`); truncated = fewer entries than before.
+    (Before 6e01388 the code was `mdPb.Entry = mdPb.Entry[:index]; truncated = index < len`, which
+    lost a grpc-trace-bin entry behind the first over-limit entry: finding F7.) -/
 def truncateMetadata (headerMaxLen : Nat) (es : List Entry) : List Entry × Bool :=
   if headerMaxLen = maxUInt then (es, false)
   else
     let index := truncIndex headerMaxLen es
-    (es.take index, decide (index < es.length))
+    let kept := es.take index ++ (es.drop index).filter (fun e => !(counted e))
+    (kept, decide (kept.length < es.length))
 
 /-- `truncateMessage`: (msgPb.Data afterwards, truncated). -/
 def truncateMessage (messageMaxLen : Nat) (data : Bytes) : Bytes × Bool :=
@@ -107,9 +116,6 @@ def build (h m : Nat) : Payload → Built
 
 /-! ## The property (C55) as an executable predicate on an observed result -/
 
-/-- Entries that count towards the header limit: everything but grpc-trace-bin. -/
-def counted (e : Entry) : Bool := e.key != traceBin
-
 /-- Bytes of a list of entries that count towards the limit. -/
 def csize : List Entry → Nat
   | [] => 0
@@ -137,7 +143,7 @@ inductive MetaVerdict
   | flagWrong          -- truncated ≠ (something was dropped)
   | traceBinAtCut      -- output is a prefix of the input that stops AT a grpc-trace-bin entry
   | traceBinDropped    -- output is the longest fitting prefix of the input, but a grpc-trace-bin
-                       -- entry behind the first over-limit entry is gone (F7)
+                       -- entry behind the first over-limit entry is gone (F7, the code before 6e01388)
   | notInOrder         -- anything else: entries reordered, duplicated, invented or lost
 deriving DecidableEq, Repr
 
@@ -182,15 +188,6 @@ def MetaVerdict.text : MetaVerdict → String
   | .traceBinAtCut => "VIOL grpc-trace-bin is the first dropped entry (counted towards the limit or not kept)"
   | .traceBinDropped => "VIOL grpc-trace-bin behind the first over-limit entry is dropped (always-kept clause)"
   | .notInOrder => "VIOL logged metadata is not the loggable entries in order minus over-limit entries"
-
-/-- Model of the SUGGESTED FIX of `truncateMetadata` (not the code): after the loop, also keep the
-    grpc-trace-bin entries behind the cut; truncated = fewer entries than before. -/
-def truncateMetadataFixed (headerMaxLen : Nat) (es : List Entry) : List Entry × Bool :=
-  if headerMaxLen = maxUInt then (es, false)
-  else
-    let index := truncIndex headerMaxLen es
-    let kept := es.take index ++ (es.drop index).filter (fun e => !(counted e))
-    (kept, decide (kept.length < es.length))
 
 /-- Verdict on one message truncation. -/
 def msgVerdict (m : Nat) (data out : Bytes) (flag : Bool) : String :=
